@@ -10,6 +10,7 @@ package actionlint
 // with arbitrary text, anchors / aliases / merge keys, deep nesting, invalid UTF-8, block forms);
 // (b) all byte strings of length <= 2 on each channel; (c) all token sequences / character strings
 // of C04 inside a ${{ }} placeholder and a bare if: condition through the whole Linter.
+// (d) every needs graph on <= 3 (thorough 4) jobs.
 // Oracle: no panic; result is ([]*Error, nil) or (nil, error); termination (watchdog);
 // unrecoverable runtime errors are caught by vcheck through the progress file.
 
@@ -373,6 +374,45 @@ func TestVerifC01(t *testing.T) {
 			}
 		}
 		c01Project(t, dir)
+	}
+
+	// (d) structured families whose shapes the fragment alphabet cannot build: every needs graph on
+	// up to 3 jobs (thorough: 4), self loops included, through the whole Linter
+	graphN := 3
+	if vThorough() {
+		graphN = 4
+	}
+	r.Bounds["needs_graph_jobs"] = graphN
+	for n := 1; n <= graphN; n++ {
+		for mask := 0; mask < 1<<(n*n); mask++ {
+			idx++
+			if !r.Mine(idx) {
+				continue
+			}
+			if idx%1024 == 0 && r.Expired() {
+				return
+			}
+			var b strings.Builder
+			b.WriteString("on: push\njobs:\n")
+			for i := 0; i < n; i++ {
+				fmt.Fprintf(&b, "  j%d:\n", i)
+				var deps []string
+				for j := 0; j < n; j++ {
+					if mask&(1<<(i*n+j)) != 0 {
+						deps = append(deps, fmt.Sprintf("j%d", j))
+					}
+				}
+				if len(deps) > 0 {
+					b.WriteString("    needs: [" + strings.Join(deps, ", ") + "]\n")
+				}
+				b.WriteString("    runs-on: ubuntu-latest\n    steps:\n      - run: echo ${{ needs.j0.result }}\n")
+			}
+			src := b.String()
+			what := fmt.Sprintf("needs graph n=%d mask=%#x", n, mask)
+			r.Begin(func() string { return what })
+			res := vLint(src, nil)
+			c01Oracle(r, chans[0], what, res, map[string]any{"channel": "workflow", "content": src})
+		}
 	}
 
 	// (c) expression text through the whole Linter (semantic checker, untrusted-input checker, if-cond rule)
